@@ -129,9 +129,18 @@ class ClassObj:
                 self.attrs.update(base.attrs)
             elif norm(b) not in ("object",):
                 self.opaque_base = norm(b)
+        decos = {norm(d.func if isinstance(d, ast.Call) else d).split(".")[-1] for d in node.decorator_list}
+        self.record = "dataclass" in decos or any(norm(b_).split(".")[-1] == "NamedTuple" for b_ in node.bases)
+        if self.record and getattr(self, "opaque_base", "").split(".")[-1] == "NamedTuple":
+            del self.opaque_base
+        self.fields: list[tuple[str, ast.AST | None]] = list(getattr(next((env.get(norm(b_)) for b_ in node.bases if isinstance(env.get(norm(b_)), ClassObj)), None), "fields", []))
         for st in node.body:
             if isinstance(st, ast.FunctionDef):
                 self.methods[st.name] = UserFunc(st, env)
+            elif isinstance(st, ast.AnnAssign) and isinstance(st.target, ast.Name):
+                self.fields.append((st.target.id, st.value))
+            elif isinstance(st, ast.Assign) and len(st.targets) == 1 and isinstance(st.targets[0], ast.Name) and isinstance(st.value, ast.Constant):
+                self.attrs[st.targets[0].id] = st.value.value
 
     def __repr__(self) -> str:
         return f"<class {self.node.name}>"
@@ -354,6 +363,36 @@ class Evaluator:
                 inst.cls = f
                 if "__init__" in f.methods:
                     self.call_user(f.methods["__init__"], [inst, *args], kwargs)
+                elif f.record:
+                    # a dataclass / NamedTuple: the generated __init__ binds the annotated fields in order (defaults evaluated at call time here)
+                    names = [n_ for n_, _d in f.fields]
+                    if len(args) > len(names) or any(k_ not in names for k_ in kwargs):
+                        raise Raised("TypeError: unexpected argument")
+                    vals = dict(zip(names, args))
+                    for k_, v_ in kwargs.items():
+                        if k_ in vals:
+                            raise Raised("TypeError: multiple values")
+                        vals[k_] = v_
+                    for n_, d_ in f.fields:
+                        if n_ not in vals:
+                            if d_ is None:
+                                raise Raised(f"TypeError: missing argument {n_}")
+                            if isinstance(d_, ast.Call) and norm(d_.func).split(".")[-1] == "field":
+                                fac = next((k_.value for k_ in d_.keywords if k_.arg == "default_factory"), None)
+                                dv = next((k_.value for k_ in d_.keywords if k_.arg == "default"), None)
+                                if fac is not None:
+                                    fv = self.ev(fac, f.env)
+                                    vals[n_] = fv() if fv in (list, dict, set, tuple) else self.ev(ast.Call(func=fac, args=[], keywords=[]), f.env)
+                                elif dv is not None:
+                                    vals[n_] = self.ev(dv, f.env)
+                                else:
+                                    raise Raised(f"TypeError: missing argument {n_}")
+                            else:
+                                vals[n_] = self.ev(d_, f.env)
+                    inst.attrs.update(vals)
+                    inst.record_fields = names
+                    if "__post_init__" in f.methods:
+                        self.call_user(f.methods["__post_init__"], [inst], {})
                 elif args or kwargs:
                     raise Raised("TypeError: takes no arguments")
                 return inst
@@ -447,6 +486,8 @@ class Evaluator:
                 raise Refused("subscript store on a non-container")
             box[self.ev(target.slice, env)] = value
         elif isinstance(target, (ast.Tuple, ast.List)):
+            if isinstance(value, Sym) and hasattr(value, "record_fields"):
+                value = [value.attrs[n_] for n_ in value.record_fields]
             vals = list(value)
             if len(vals) != len(target.elts):
                 raise Refused("unpack arity")
